@@ -4,7 +4,7 @@ A unit is tagged with a property when the property's statement talks about the s
 usage: retag.py [--dry]"""
 import re, glob, sys
 STAGE_PROPS = {
- 'target':  'C01 C02 C03 C08 C13 C17 C18',
+ 'target':  'C01 C02 C03 C05 C08 C09 C10 C13 C17 C18',
  'gen':     'C01 C02 C04 C05 C07 C08 C11 C12 C13 C17 C19',
  'iter':    'C01 C02 C04 C08 C19',
  'cache':   'C01 C02 C05 C07 C11 C12 C13 C17',
